@@ -490,7 +490,7 @@ class Model:
                 del self.ftasks[op["name"]]
             else:
                 del self.knobs[op["name"]]
-        elif k in ("verify", "cleanup", "refresh", "clone", "noop"):
+        elif k in ("verify", "cleanup", "refresh", "clone", "noop", "loadself"):
             pass
         else:
             raise ValueError(op)
@@ -628,6 +628,8 @@ class Real:
             self.m.refresh()
         elif k == "clone":
             self.m.clone()
+        elif k == "loadself":
+            self.m.load(self.m.dump())
         elif k == "noop":
             pass
         else:
